@@ -152,7 +152,15 @@ func (ms *Modules) resolveIdentities() []error {
 	// from them, and compile them into a "fully resolved" map that means that
 	// we can look them up based on the 'real' prefix of the module and the
 	// name of the identity.
-	for _, mod := range ms.Modules {
+	// Several revisions of one module share their dictionary keys: visit the
+	// modules in key order so that the same one (the latest) wins in every run.
+	keys := make([]string, 0, len(ms.Modules))
+	for k := range ms.Modules {
+		keys = append(keys, k)
+	}
+	sort.Strings(keys)
+	for _, k := range keys {
+		mod := ms.Modules[k]
 		// Register the identities of the module and hoist up all
 		// identities in our included submodules, also of those that
 		// are included by another submodule.
